@@ -9,6 +9,10 @@ pub fn qs(s: &str) -> String {
     for c in s.chars() {
         if c == '"' {
             o.push_str("\"\"");
+        } else if c == '\n' {
+            o.push('\u{1}'); // line protocol: the driver turns \x01 back into a newline
+        } else if c == '\r' {
+            o.push('\u{2}');
         } else {
             o.push(c);
         }
